@@ -46,8 +46,14 @@ static inline double vf_floor(double x) {
 #else
 static inline double vf_floor(double x) { return floor(x); }
 #endif
+#if defined(VF_U_CONV) && defined(__CPROVER__)
+double __CPROVER_uninterpreted_floor(double);
+#define M_floor(s,x) __CPROVER_uninterpreted_floor(x)
+#define M_ceil(s,x) (-__CPROVER_uninterpreted_floor(-(x)))
+#else
 #define M_floor(s,x) vf_floor(x)
 #define M_ceil(s,x) (-vf_floor(-(x)))
+#endif
 static inline double vf_ldexp(double x, int n) {
 #ifdef __CPROVER__
   /* exact when x and the result are normal numbers: add n to the biased exponent */
